@@ -269,6 +269,11 @@ class Interp:
             if b.tup is not None and isinstance(e.slice, ast.Constant) and isinstance(e.slice.value, int) and -len(b.tup) <= e.slice.value < len(b.tup):
                 return b.tup[e.slice.value]
             i = ev(e.slice) if not isinstance(e.slice, ast.Slice) else V()
+            # an exact-key memo on the object: self.<cache>[beta] holds what was stored for an *equal* beta; a key that
+            # is a lossy function of beta (rounded / binned) is not tracked, i.e. evaluated at no known temperature
+            if isinstance(e.value, ast.Attribute) and isinstance(e.value.value, ast.Name) and e.value.value.id == "self" and isinstance(e.slice, ast.Name) \
+                    and i.sym is not None and not all_at(i) and not all_at(b):
+                return V(at={i.sym}, kinds={"logw"}, none=False)
             return V(at=all_at(b) | all_at(i), kinds=all_kinds(b) | all_kinds(i), none=False)
         if isinstance(e, ast.IfExp):
             ev(e.test)
@@ -368,6 +373,13 @@ class Interp:
             return V(tup=[self._join([v.tup[i] for v in vals]) for i in range(n)], none=False)
         syms = {v.sym for v in vals}
         at = frozenset().union(*[all_at(v) for v in vals])
+        # a value that was computed at no temperature at all (e.g. read back from a cache attribute) must not be
+        # absorbed by its siblings: the join is "evaluated at one of these *or unknown*"
+        def _untracked(v):
+            return (not all_at(v)) and v.none is not True and not (isinstance(v.sym, tuple) and v.sym and v.sym[0] == "const")
+
+        if at and any(_untracked(v) for v in vals):
+            at = at | {("untracked", tuple(sorted({repr(v.sym) for v in vals if _untracked(v)}))[:1])}
         kinds = frozenset().union(*[all_kinds(v) for v in vals])
         nones = {v.none for v in vals}
         return V(sym=syms.pop() if len(syms) == 1 else ("join", tuple(sorted(map(repr, syms)))), at=at, kinds=kinds, none=nones.pop() if len(nones) == 1 else None)
